@@ -67,6 +67,7 @@ def _fields_read(t):
 def check(run):
     _check_own(run)
     from .common import numeric_mode, single_pass
+    _own_writes(run, run.prog)
     numeric_mode(run, run.prog, "RANGE")
     single_pass(run, run.prog, [c for c in run.prog.all_classes() if c.module.name.startswith("ixai.utils.tracker")], "COUNT")
     # COPY: a copied tracker carries its count, its mean and its second moment
@@ -75,6 +76,65 @@ def check(run):
     for cls in [prog.find_class("WelfordTracker"), prog.find_class("ExponentialSmoothingTracker")]:
         if cls is not None:
             copy_protocol(run, prog, cls)
+
+
+def _own_writes(run, prog):
+    """The parts of a tracker's state move together and only inside the tracker: (a) a method of the tracker (other than
+    the constructor and update) that assigns some of {count, value, second moment} assigns all of them -- a reset that
+    forgets the accumulated squares leaves a variance belonging to another stream; (b) no code outside a tracker assigns
+    another object's count / value / accumulator (a decay applied from outside is not counted as an update)."""
+    import ast
+    from .common import welford_roles
+    from .copylib import HOOKS
+    W = prog.find_class("WelfordTracker")
+    E = prog.find_class("ExponentialSmoothingTracker")
+    wr = welford_roles(prog, W)
+    parts = {W.qual: [wr["N"], wr["tracked_value"], wr["sum_squares"]], E.qual: ["N", "tracked_value"]}
+    n = 0
+    for cls in (W, E):
+        for k in prog.mro(cls):
+            for mname, fn in k.methods.items():
+                if mname in ("__init__", "update") or mname in HOOKS or "." in mname or prog.find_method(cls, mname)[1] is not fn:
+                    continue
+                if not any(isinstance(x, ast.Attribute) and isinstance(x.ctx, ast.Store) for x in ast.walk(fn)):
+                    continue
+                try:
+                    s = prog.summarise(cls, mname)
+                except ir.Unsupported:
+                    continue
+                written = [p for p in parts[cls.qual] if s.fields.get(p, ("field0", p)) != ("field0", p)]
+                if written and len(written) < len(parts[cls.qual]):
+                    missing = [p for p in parts[cls.qual] if p not in written]
+                    n += 1
+                    run.fail("COUNT", f"{cls.name}.{mname}.partial", f"{s.path}:{s.fn.lineno}", f"{cls.name}.{mname}",
+                             f"{mname} assigns {written} and leaves {missing}",
+                             f"{cls.name}.{mname} (defined in {k.name}) assigns {written} but not {missing}: the parts of the "
+                             f"tracker's state no longer describe the same stream (after a reset the mean and the count start "
+                             f"over while `{missing[0]}` still carries the old stream)")
+    names = set(parts[W.qual]) | set(parts[E.qual])
+    tracker_mods = {c.module.name for c in (W, E)} | {prog.find_class("Tracker").module.name if prog.find_class("Tracker") else ""}
+    methods = {id(f) for c in prog.all_classes() for f in c.methods.values()
+               if not any(ast.unparse(d) == "staticmethod" for d in f.decorator_list)}
+    for m in prog.modules.values():
+        for fn in ast.walk(m.tree):
+            if not isinstance(fn, ast.FunctionDef):
+                continue
+            me = fn.args.args[0].arg if fn.args.args and id(fn) in methods else None
+            for x in ast.walk(fn):
+                if isinstance(x, ast.Attribute) and isinstance(x.ctx, ast.Store) and x.attr in names and \
+                        not (isinstance(x.value, ast.Name) and x.value.id == me) and \
+                        isinstance(x.value, (ast.Name, ast.Subscript, ast.Attribute)):
+                    # an object other than self: is it plausibly a tracker?  (clone.N = ... inside a copy hook is the tracker's own business)
+                    if fn.name in HOOKS:
+                        continue
+                    n += 1
+                    run.fail("COUNT", f"external-write:{m.name}.{fn.name}", f"{m.path}:{x.lineno}", f"{m.name}.{fn.name}",
+                             f"{ast.unparse(x)} assigned outside the tracker",
+                             f"`{ast.unparse(x)}` is assigned by {fn.name} in {m.name}: a tracker's {x.attr} changes without its "
+                             f"update() running, so its update count and its value no longer belong to the same number of "
+                             f"observations")
+    if not n:
+        run.ok("COUNT", "own-writes", "tracker state is assigned only by the tracker's constructor and update, all parts together")
 
 
 def _check_own(run):
